@@ -45,7 +45,7 @@ func main() {
 	if err != nil {
 		die("%v", err)
 	}
-	t := &translator{l: l, decls: map[string]*ast.FuncDecl{}, seenRoot: map[string]bool{}, userCallbacks: map[string]bool{}, externals: map[string]int{}}
+	t := &translator{l: l, decls: map[string]*ast.FuncDecl{}, seenRoot: map[string]bool{}, userCallbacks: map[string]bool{}, externals: map[string]int{}, uf: map[Loc]Loc{}}
 	// function declarations
 	for _, f := range l.files {
 		for _, d := range f.Decls {
@@ -398,6 +398,28 @@ func (t *translator) class(l Loc) string {
 }
 
 func (t *translator) emit(outV, outJSON string) error {
+	// merged content locations: use the representative everywhere
+	merged := map[string][]string{}
+	for l := range t.uf {
+		if r := t.find(l); r != l {
+			merged[r.String()] = append(merged[r.String()], l.String())
+		}
+	}
+	for _, r := range t.roots {
+		for i := range r.edges {
+			switch r.edges[i].A.K {
+			case "Rd", "Wr", "At":
+				r.edges[i].A.L = t.find(r.edges[i].A.L)
+			}
+		}
+	}
+	for i := range t.sites {
+		for l := range t.uf {
+			if t.sites[i].Loc == l.String() {
+				t.sites[i].Loc = t.find(l).String()
+			}
+		}
+	}
 	// collect names
 	locSet, lockSet := map[Loc]bool{}, map[Loc]bool{}
 	for _, r := range t.roots {
@@ -563,7 +585,7 @@ func (t *translator) emit(outV, outJSON string) error {
 		"files": t.l.names, "faked_imports": t.l.faked, "type_errors_ignored": t.l.nerr,
 		"roots": stats, "locations": locNames, "locks": lockNames, "own_types": own,
 		"accesses_total": totalAcc, "sites": t.sites, "skipped_local_struct_accesses": t.skippedLocal,
-		"user_callbacks": ucb, "externals": t.externals, "entropy_types": t.entropyTs,
+		"user_callbacks": ucb, "externals": t.externals, "entropy_types": t.entropyTs, "merged_content_locations": merged,
 	}
 	js, _ := json.MarshalIndent(side, "", " ")
 	return writeIfChanged(outJSON, string(js))
